@@ -302,7 +302,7 @@ def unhooked_stress(run, secs):
         return
     res = json.loads(p.stdout.strip().splitlines()[-1])
     run.rep.evaluations += 1
-    run.rep.notes.append(f"unhooked free-running stress: {res['publications']} publications, {res['snapshots']} snapshots by {res['readers']} readers in {res['secs']} s, {len(res['violations'])} violations")
+    run.rep.notes.append(f"unhooked free-running stress: {res['publications']} publications, {res['snapshots']} snapshots by {res['readers']} readers in {res['secs']} s, then {res.get('sleep_sweeps', 0)} sleeping-reader gaps up to 70000 publications, {len(res['violations'])} violations")
     for v in res["violations"]:
         prop = v.split()[0]
         if prop in PROPSETS[run.rep.pid]:
